@@ -197,13 +197,13 @@ def pair_monotone(report, scen, rng, evs, f):
         report.count("pairs_monotone_" + w["backend"])
 
 
-def pair_union(report, scen, rng, evs, f):
+def pair_union(report, scen, rng, evs, f, key=None):
     f = dict(f)
     f.pop("limit", None)
     keys = [k for k in f if isinstance(f[k], list) and len(set(map(str, f[k]))) > 1]
     if not keys:
         return
-    k = rng.choice(keys)
+    k = key if key in keys else rng.choice(keys)
     whole = ask_both(scen, f)
     parts = []
     for v in f[k]:
@@ -243,6 +243,23 @@ def multiindex_store(rng):
     return evs, f
 
 
+def mixed_case_union(report, scen, rng, evs):
+    """several stored authors / ids asked for in every mix of upper- and lower-case hex: the answer must be the union of
+    the single-value answers whatever the spelling (the relay lower-cases and orders the values itself)"""
+    for key, pool in (("authors", sorted({e["pubkey"] for e in evs})), ("ids", sorted({e["id"] for e in evs}))):
+        if len(pool) < 2:
+            continue
+        vals = rng.sample(pool, min(len(pool), rng.choice([2, 2, 3])))
+        for _ in range(3):
+            spelled = [v.upper() if rng.random() < 0.5 else v for v in vals]
+            rng.shuffle(spelled)
+            f = {key: spelled}
+            if key == "authors" and rng.random() < 0.4:
+                f["kinds"] = sorted({e["kind"] for e in evs})[:3]
+            pair_union(report, scen, rng, evs, f, key=key)
+            report.count("mixed_case_unions")
+
+
 def run_case(report, scen, rng):
     for _ in range(2):
         evs, f = multiindex_store(rng)
@@ -255,6 +272,7 @@ def run_case(report, scen, rng):
         f = gen.gen_filter(rng, evs, limit_pool=(None,))
         pair_unrelated(report, scen, rng, evs, f)
     scen.load(evs)
+    mixed_case_union(report, scen, rng, evs)
     for _ in range(8):
         f = gen.gen_filter(rng, evs, limit_pool=(None,))
         pair_monotone(report, scen, rng, evs, f)
